@@ -30,6 +30,7 @@ structure Ctx where
   logger : Option Nat := none
   resp : Resp := {}
   req : Nat := 0                       -- the request the context currently serves
+  handler : Option Nat := none         -- `none` = echo.NotFoundHandler (what `Reset` installs)
 deriving DecidableEq, Repr, Inhabited
 
 /-- what a handler does to its context -/
@@ -46,6 +47,10 @@ inductive HOp where
   | after (h : Nat)
   | panic
   | fail
+  | setRequest (q : Nat)       -- `SetRequest`: another request object; the query cache is not touched
+  | poisonQuery (v : Nat)      -- the handler edits the map returned by `QueryParams()`
+  | setHandler (h : Nat)       -- `SetHandler`
+  | setResponse (code : Nat)   -- `SetResponse(NewResponse(..))`, then `WriteHeader(code)` when code > 0
 deriving Repr, Inhabited
 
 def blank (n : Nat) : List Str := List.replicate n []
@@ -54,7 +59,8 @@ def blank (n : Nat) : List Str := List.replicate n []
     together with `Response.reset` -/
 def reset (c : Ctx) (req : Nat) (maxParam : Nat) : Ctx :=
   { pvalues := blank (max c.pvalues.length maxParam)
-    pnames := [], path := [], query := none, store := [], logger := none, resp := {}, req := req }
+    pnames := [], path := [], query := none, store := [], logger := none, resp := {}, req := req,
+    handler := none }
 
 /-- `NewContext` -/
 def newCtx (maxParam : Nat) : Ctx := { pvalues := blank maxParam }
@@ -81,6 +87,11 @@ def hstep (c : Ctx) : HOp → Ctx
   | .after h => { c with resp := { c.resp with after := c.resp.after ++ [h] } }
   | .panic => c
   | .fail => c
+  | .setRequest q => { c with req := q }
+  | .poisonQuery v => { c with query := some v }
+  | .setHandler h => { c with handler := some h }
+  | .setResponse code =>
+    if code = 0 then { c with resp := {} } else { c with resp := { status := code, committed := true } }
 
 def isPanic : HOp → Bool | .panic => true | _ => false
 
@@ -109,10 +120,15 @@ deriving DecidableEq, Repr, Inhabited
 def route (rt : RouterFn) (c : Ctx) (m p : Str) : Ctx × Obs :=
   match rt m p c.pvalues.length with
   | .dispatch rm vals =>
-    let c := { c with pnames := rm.pnames, path := rm.ppath,
+    let c := { c with pnames := rm.pnames, path := rm.ppath, handler := some rm.hid,
                       pvalues := vals ++ c.pvalues.drop vals.length }
     (c, ⟨0, rm.hid, c.path, c.pnames, c.pvalues.take c.pnames.length, c.query, c.store, c.logger, c.resp⟩)
-  | .notFound q => ({ c with path := q }, ⟨1, 0, q, [], [], c.query, c.store, c.logger, c.resp⟩)
+  | .notFound q =>
+    -- `Find` returns without touching the handler: what runs is whatever the context holds, i.e. the
+    -- NotFoundHandler `Reset` installed -- or a handler left behind, if `Reset` did not clear it
+    match c.handler with
+    | none => ({ c with path := q }, ⟨1, 0, q, [], [], c.query, c.store, c.logger, c.resp⟩)
+    | some h => ({ c with path := q }, ⟨0, h, q, [], [], c.query, c.store, c.logger, c.resp⟩)
   | .methodNotAllowed q _ => ({ c with path := q }, ⟨2, 0, q, [], [], c.query, c.store, c.logger, c.resp⟩)
   | .panic => (c, ⟨3, 0, [], [], [], c.query, c.store, c.logger, c.resp⟩)
 
@@ -138,6 +154,7 @@ def serveWith (rt : RouterFn) (maxParam : Nat) (pooled : Option Ctx) (r : Reques
 inductive Step where
   | request (r : Request)
   | register (rt : Route)
+  | borrow (id : Nat) (prog : List HOp)   -- AcquireContext; Reset; the application's own use; ReleaseContext
 deriving Repr, Inhabited
 
 structure World where
@@ -154,6 +171,10 @@ def step (w : World) : Step → World × Option Obs
     let (pooled, rest) := match w.pool with | c :: cs => (some c, cs) | [] => (none, [])
     let (obs, back) := serveWith (routerOf w.routes) (maxParam w.routes) pooled r
     ({ w with pool := match back with | some c => c :: rest | none => rest }, some obs)
+  | .borrow id prog =>
+    let (c0, rest) := match w.pool with | c :: cs => (c, cs) | [] => (newCtx (maxParam w.routes), [])
+    let (c1, panicked) := hrun (reset c0 id (maxParam w.routes)) prog
+    ({ w with pool := if panicked then rest else c1 :: rest }, none)
 
 def runSteps (w : World) : List Step → List Obs
   | [] => []
@@ -181,6 +202,10 @@ def pHOp : P HOp := do
   | 9 => do let h ← nat; pure (.after h)
   | 10 => pure .panic
   | 11 => pure .fail
+  | 12 => do let q ← nat; pure (.setRequest q)
+  | 13 => do let v ← nat; pure (.poisonQuery v)
+  | 14 => do let h ← nat; pure (.setHandler h)
+  | 15 => do let c ← nat; pure (.setResponse c)
   | _ => failure
 
 def pStep : P Step := do
@@ -190,6 +215,7 @@ def pStep : P Step := do
     let id ← nat; let m ← str; let p ← str; let prog ← list pHOp
     pure (.request ⟨id, m, p, prog⟩)
   | 1 => do let m ← str; let p ← str; let hid ← nat; pure (.register ⟨m, p, hid⟩)
+  | 2 => do let id ← nat; let prog ← list pHOp; pure (.borrow id prog)
   | _ => failure
 
 def encOptNat : Option Nat → List String
